@@ -94,13 +94,21 @@ func UpdateMinInteriorDistance(x, a, b Point, minDist s1.ChordAngle) (s1.ChordAn
 //
 // This requires that all points are unit length.
 func Project(x, a, b Point) Point {
+	// The closest point to an endpoint is that endpoint.
+	if x == a || x == b {
+		return x
+	}
 	aXb := a.PointCross(b)
-	// Find the closest point to X along the great circle through AB.
-	p := x.Sub(aXb.Mul(x.Dot(aXb.Vector) / aXb.Norm2()))
+	// Find the closest point to X along the great circle through AB: it is
+	// perpendicular to the circle's normal N and coplanar with N and X.
+	// (Subtracting from X its component along N instead loses all accuracy
+	// when X is close to the pole N, where the difference nearly vanishes.)
+	n := Point{aXb.Normalize()}
+	p := Point{n.PointCross(x).Cross(n.Vector).Normalize()}
 
 	// If this point is on the edge AB, then it's the closest point.
-	if Sign(aXb, a, Point{p}) && Sign(Point{p}, b, aXb) {
-		return Point{p.Normalize()}
+	if Sign(aXb, a, p) && Sign(p, b, aXb) {
+		return p
 	}
 
 	// Otherwise, the closest point is either A or B.
